@@ -158,6 +158,7 @@ class Kernel:
         self.workers: dict[int, Worker] = {}
         self.gates: dict[tuple[int, int], Any] = {}
         self.get_scopes: dict[int, Any] = {}            # label of a suspended async lookup -> its cancel scope
+        self.ctxtd_fn: Any = None
         self.calls: dict[tuple[int, int], int] = {}
         self.tdlog: list[str] = []
         self.mid: dict[int, tuple[int, Any]] = {}       # context -> (callback during which its scope is cancelled, scope)
@@ -867,22 +868,27 @@ class Worker:
 
                     sub = kern.ctxs.get(cmd["enterSub"]) if cmd.get("enterSub") is not None else None
 
-                    @context_teardown
-                    async def gen() -> Any:
-                        if sub is not None:
-                            # the first half opens a sub-context of its own and keeps it open (and current)
-                            await sub.__aenter__()
-                        exc = yield
-                        try:
-                            await checkpoint()
-                        except anyio.get_cancelled_exc_class():
-                            kern.tdlog.append(f"td+ {cmd['cb']['id']} {exc_name(exc)}")
-                            kern.tdlog.append(f"td- {cmd['cb']['id']} cancelled")
-                            raise
-                        inner(exc)
+                    if kern.ctxtd_fn is None:
+                        # ONE decorated function for the whole case, called once per registration (a method of a
+                        # component class instantiated several times, say): every call has a generator of its own
+                        @context_teardown
+                        async def gen(cb_id: int, inner: Any, sub: Any) -> Any:
+                            if sub is not None:
+                                # the first half opens a sub-context of its own and keeps it open (and current)
+                                await sub.__aenter__()
+                            exc = yield
+                            try:
+                                await checkpoint()
+                            except anyio.get_cancelled_exc_class():
+                                kern.tdlog.append(f"td+ {cb_id} {exc_name(exc)}")
+                                kern.tdlog.append(f"td- {cb_id} cancelled")
+                                raise
+                            inner(exc)
+
+                        kern.ctxtd_fn = gen
 
                     try:
-                        await gen()
+                        await kern.ctxtd_fn(cmd["cb"]["id"], inner, sub)
                     except Exception as e:  # noqa: BLE001
                         return kern.exc_out(e)
                     return ["ok", "ok"] if sub is not None else ["ok"]
